@@ -508,6 +508,8 @@ class Verifier(Engine):
             raise BindingError('call to %s: no contract' % key)
         if key in self.ctr.inline:
             return self.call_inline(st, qual, ctr, args, kwargs, setter)
+        if ctr.trusted:
+            smt.STATS.setdefault('trusted_used', set()).add(key)       # reported per property in the evidence
         fn_node = None
         try:
             fn_node, _, _ = source.find_def(qual, 'setter' if setter else None)
